@@ -178,16 +178,21 @@ def instrument_text(rel, txt):
         notes.append("%d clock read(s) redirected to verifNow()" % n)
     if rel in INSTRUMENT_SECTIONS:
         out, k = [], 0
+        fn, nlock = "?", 0
         for i, line in enumerate(txt.split("\n"), 1):
+            mf = re.match(r"^func (?:\([^)]*\) )?(\w+)", line)
+            if mf:
+                fn, nlock = mf.group(1), 0
             m = re.match(r"^(\s*)defer (\w+)\.lock\.Unlock\(\)\s*$", line)
             if m:
-                out.append('%sdefer func() { verifLeave(%s, "L%d"); %s.lock.Unlock() }()' % (m.group(1), m.group(2), i, m.group(2))); k += 1; continue
+                out.append('%sdefer func() { verifLeave(%s, "%s#%d"); %s.lock.Unlock() }()' % (m.group(1), m.group(2), fn, nlock, m.group(2))); k += 1; continue
             m = re.match(r"^(\s*)(\w+)\.lock\.Unlock\(\)\s*$", line)
             if m:
-                out.append('%sverifLeave(%s, "L%d"); %s.lock.Unlock()' % (m.group(1), m.group(2), i, m.group(2))); k += 1; continue
+                out.append('%sverifLeave(%s, "%s#%d"); %s.lock.Unlock()' % (m.group(1), m.group(2), fn, nlock, m.group(2))); k += 1; continue
             m = re.match(r"^(\s*)(\w+)\.lock\.Lock\(\)\s*$", line)
             if m:
-                out.append('%s%s.lock.Lock(); verifEnter(%s, "L%d")' % (m.group(1), m.group(2), m.group(2), i)); k += 1; continue
+                nlock += 1
+                out.append('%s%s.lock.Lock(); verifEnter(%s, "%s#%d")' % (m.group(1), m.group(2), m.group(2), fn, nlock)); k += 1; continue
             out.append(line)
         txt = "\n".join(out)
         notes.append("%d lock/unlock site(s) announced" % k)
